@@ -242,7 +242,7 @@ func oracle(c core.Case, out []string) []core.Finding {
 					add("pool.CheckEvidence.accepts-invalid."+e.kind, "CheckEvidence passed evidence the reference verifier rejects: "+id)
 				}
 			}
-		case "update":
+		case "update", "cupdate":
 			if res != "ok" {
 				break
 			}
@@ -280,6 +280,12 @@ func oracle(c core.Case, out []string) []core.Finding {
 				}
 			}
 			o.buffer = keep
+			if f[0] == "cupdate" { // the concurrent report is ordered after the flush: due at the next Update
+				if e := o.defs[m["e"]]; e != nil {
+					o.buffer = append(o.buffer, e.id)
+					o.consensus = append(o.consensus, e.id)
+				}
+			}
 		case "report":
 			if e := o.defs[m["e"]]; e != nil {
 				o.buffer = append(o.buffer, e.id)
@@ -365,6 +371,7 @@ func (o *ostate) checkPE(m map[string]string, out string, add func(fp, desc stri
 		return
 	}
 	var n, bytes int64
+	real := int64(-1)
 	var ids []string
 	for _, t := range strings.Fields(out) {
 		switch {
@@ -372,11 +379,21 @@ func (o *ostate) checkPE(m map[string]string, out string, add func(fp, desc stri
 			n, _ = strconv.ParseInt(t[2:], 10, 64)
 		case strings.HasPrefix(t, "bytes="):
 			bytes, _ = strconv.ParseInt(t[6:], 10, 64)
+		case strings.HasPrefix(t, "real="):
+			real, _ = strconv.ParseInt(t[5:], 10, 64)
 		case strings.HasPrefix(t, "ids=") && t != "ids=-":
 			ids = strings.Split(t[4:], ",")
 		}
 	}
 	max, _ := strconv.ParseInt(m["max"], 10, 64)
+	if real >= 0 {
+		if max >= 0 && real > max {
+			add("pool.PendingEvidence.returns-more-than-max-bytes", fmt.Sprintf("PendingEvidence(%d) returned evidence that takes %d bytes in a block (it reported %d)", max, real, bytes))
+		}
+		if real != bytes {
+			add("pool.PendingEvidence.wrong-byte-count", fmt.Sprintf("PendingEvidence reported %d bytes for evidence whose tmproto.EvidenceList takes %d", bytes, real))
+		}
+	}
 	if max >= 0 && bytes > max {
 		add("pool.PendingEvidence.exceeds-max-bytes", fmt.Sprintf("PendingEvidence(%d) returned %d bytes", max, bytes))
 	}
